@@ -9,12 +9,15 @@ struct Min {
     target: String,
     budget: usize,
     used: usize,
+    /// wall-clock bound: a giant scenario (megabyte patterns) can take seconds per
+    /// re-execution; past the deadline the best scenario so far is reported
+    deadline: std::time::Instant,
 }
 
 impl Min {
     /// Runs the candidate; on success returns it with the schedule it actually took.
     fn fails(&mut self, sc: &ThreadScenario) -> Option<ThreadScenario> {
-        if self.used >= self.budget || sc.threads.is_empty() {
+        if self.used >= self.budget || std::time::Instant::now() > self.deadline || sc.threads.is_empty() {
             return None;
         }
         self.used += 1;
@@ -95,7 +98,7 @@ fn remove_searcher(sc: &ThreadScenario, k: usize) -> Option<ThreadScenario> {
 }
 
 pub fn minimise(sc: &ThreadScenario, target: &str, budget: usize) -> (ThreadScenario, usize) {
-    let mut min = Min { target: target.to_string(), budget, used: 0 };
+    let mut min = Min { target: target.to_string(), budget, used: 0, deadline: std::time::Instant::now() + std::time::Duration::from_secs(std::env::var("VERIF_MIN_SECS").ok().and_then(|s| s.parse().ok()).unwrap_or(60)) };
     let mut cur = match min.fails(sc) {
         Some(c) => c,
         None => return (sc.clone(), min.used),
